@@ -251,8 +251,9 @@ impl<const N: usize> UdpAssociateContext<N> {
                                 },
                             };
                             if !self.validate_packet_id(session.packet_id) {
-                                error!("[udp] packet_id {} out of window; client={}, peer={}", session.packet_id, self.client_addr, peer_addr);
-                                break;
+                                // a duplicate or stale packet is dropped; the session and the packets that follow are not affected
+                                error!("[udp] drop packet, packet_id {} out of window; client={}, peer={}", session.packet_id, self.client_addr, peer_addr);
+                                continue;
                             }
                             self.user.clone_from(&session.user);
                             if let Err(e) = self.outbound.send_to(&content, resolved_addr).await {
